@@ -4,6 +4,9 @@ On every run the current source text is translated again:
   the command dataclasses, LinSpaceVM.change_state / step,
   _TranslationState.set_voltage / _set_indexed_voltage / _add_hold_node     -> coq/C17/Gen_linspace_obj.v  (GenObjEq.v)
   ProgramEntry._transform_linspace_commands (hardware/awgs/base.py)         -> coq/C17/Gen_awg_base.v      (GenBaseEq.v)
+  the node dataclasses, DepKey.from_voltages, dependencies(), new_loop, get_dependency_state,
+  _entry_state_unchanged_since, _add_repetition_node, _add_iteration_node, add_node,
+  to_increment_commands, LinSpaceVM.__init__                                -> coq/C17/Gen_linspace_tr.v   (GenTrEq.v)
 The committed proofs GenEq.v / GenObjEq.v show the generated definitions equal to (a refinement of) the model; they stop
 compiling when the source changes its behaviour, and the translator refuses source text outside its subset."""
 import os
@@ -14,6 +17,7 @@ import vlib
 GEN_FILE = os.path.join(vlib.COQ, 'C17', 'Gen_linspace.v')
 GEN_OBJ_FILE = os.path.join(vlib.COQ, 'C17', 'Gen_linspace_obj.v')
 GEN_BASE_FILE = os.path.join(vlib.COQ, 'C17', 'Gen_awg_base.v')
+GEN_TR_FILE = os.path.join(vlib.COQ, 'C17', 'Gen_linspace_tr.v')
 SOURCE = 'qupulse/program/linspace.py'
 SOURCE_BASE = 'qupulse/hardware/awgs/base.py'
 
@@ -35,6 +39,15 @@ def pregen(ctx):
         txt = py2gallina_c17.translate_objects(os.path.join(vlib.REPO, SOURCE))
         txt = txt.replace(vlib.REPO, '/repo')
         vlib.write_if_changed(GEN_OBJ_FILE, txt + '\n')
+        out.append({'name': name, 'ok': True, 'detail': 'translated'})
+    except Exception as e:
+        out.append({'name': name, 'ok': False, 'detail': 'translator refused the current source: %s' % e})
+    name = ('translate:%s::DepKey.from_voltages,dependencies(),_TranslationState.add_node/_add_repetition_node/_add_iteration_node/'
+            'new_loop/get_dependency_state/_entry_state_unchanged_since,to_increment_commands,LinSpaceVM.__init__' % SOURCE)
+    try:
+        txt = py2gallina_c17.translate_translator(os.path.join(vlib.REPO, SOURCE))
+        txt = txt.replace(vlib.REPO, '/repo')
+        vlib.write_if_changed(GEN_TR_FILE, txt + '\n')
         out.append({'name': name, 'ok': True, 'detail': 'translated'})
     except Exception as e:
         out.append({'name': name, 'ok': False, 'detail': 'translator refused the current source: %s' % e})
